@@ -1,6 +1,9 @@
 // C05 harness (1): GFqDom<int32_t> / GFqDom<int64_t> of /repo's current headers.
 // stdin lines (all operations refer to the last "field" line):
-//   field <32|64> auto <p> <k>
+//   field <32|64> auto[:<way>:<p2>:<k2>] <p> <k>      (same suffix for mod / modgen)
+//        way: a (default) copy-constructed, then assigned over a default-constructed object; d used where it was constructed;
+//        c copy-constructed, source destroyed; o assigned over the field GF(p2^k2); s assigned to itself;
+//        h copy kept while its source is overwritten by GF(p2^k2); t assigned twice (GF(p2^k2) first)
 //   field <32|64> mod <p> <k> | c0 c1 .. ck
 //   field <32|64> modgen <p> <k> | c0 .. ck | g0 .. gm
 //        -> "F <q> <one> <mone> H <h1> <h2> <h3> X <irred> <gen> <card> <char> <expo> <zero> <size> <residu> <genrep> [T l2p | p2l | pl1]"
@@ -34,6 +37,9 @@ template <class T> struct Peek : public GFqDom<T> {
     typedef typename Base::UT UT;
     Peek() : Base() {}
     Peek(const Base& b) : Base(b) {}
+    Peek(UTT P, UTT e) : Base(P, e) {}
+    template <class V> Peek(UTT P, UTT e, const V& m) : Base(P, e, m) {}
+    template <class V> Peek(UTT P, UTT e, const V& m, const V& g) : Base(P, e, m, g) {}
     ll plus1(size_t i) const { return (ll)this->_plus1[i]; }
     size_t tabsize() const { return this->_log2pol.size(); }
     ll qm1() const { return (ll)this->_qm1; }
@@ -67,21 +73,38 @@ struct Session { virtual ~Session() {} virtual std::string line(const std::vecto
 template <class T> struct S : public Session {
     typedef Peek<T> Fld;
     typedef typename GFqDom<T>::Element Elt;
-    Fld F;
-    S(const std::vector<std::string>& t) {
+    Fld* Fp; Fld& F;
+    static Fld* construct(const std::string& ctor, unsigned long long p, unsigned long long k, const std::vector<int64_t>& m, const std::vector<int64_t>& g) {
+        typedef typename Fld::UTT U;
+        if (ctor == "auto") return new Fld((U)p, (U)k);
+        if (ctor == "mod") return new Fld((U)p, (U)k, m);
+        return new Fld((U)p, (U)k, m, g);
+    }
+    static Fld* obtain(const std::vector<std::string>& t) {
         unsigned long long p = strtoull(t[3].c_str(), 0, 10), k = strtoull(t[4].c_str(), 0, 10);
         std::vector<std::vector<std::string> > parts = split_bar(t, 5);
-        if (t[2] == "auto") { GFqDom<T> G((typename Fld::UTT)p, (typename Fld::UTT)k); Fld H(G); F = H; }       // copy ctor + operator=
-        else {
-            std::vector<int64_t> m, g;
-            for (size_t i = 0; i < parts[1].size(); ++i) m.push_back(strtoll(parts[1][i].c_str(), 0, 10));
-            if (t[2] == "mod") { GFqDom<T> G((typename Fld::UTT)p, (typename Fld::UTT)k, m); Fld H(G); F = H; }
-            else {
-                for (size_t i = 0; i < parts[2].size(); ++i) g.push_back(strtoll(parts[2][i].c_str(), 0, 10));
-                GFqDom<T> G((typename Fld::UTT)p, (typename Fld::UTT)k, m, g); Fld H(G); F = H;
-            }
+        std::vector<int64_t> m, g;
+        if (parts.size() > 1) for (size_t i = 0; i < parts[1].size(); ++i) m.push_back(strtoll(parts[1][i].c_str(), 0, 10));
+        if (parts.size() > 2) for (size_t i = 0; i < parts[2].size(); ++i) g.push_back(strtoll(parts[2][i].c_str(), 0, 10));
+        std::string ctor = t[2]; char way = 'a'; unsigned long long p2 = 2, k2 = 2;
+        size_t c1 = ctor.find(':');
+        if (c1 != std::string::npos) {
+            std::string w = ctor.substr(c1 + 1); ctor = ctor.substr(0, c1); way = w.empty() ? 'a' : w[0];
+            size_t c2 = w.find(':'), c3 = (c2 == std::string::npos) ? c2 : w.find(':', c2 + 1);
+            if (c3 != std::string::npos) { p2 = strtoull(w.substr(c2 + 1, c3 - c2 - 1).c_str(), 0, 10); k2 = strtoull(w.substr(c3 + 1).c_str(), 0, 10); }
         }
+        typedef typename Fld::UTT U;
+        Fld* G = construct(ctor, p, k, m, g);
+        if (way == 'd') return G;
+        if (way == 'c') { Fld* H = new Fld(*G); delete G; return H; }
+        if (way == 'o') { Fld* H = new Fld((U)p2, (U)k2); *H = *G; delete G; return H; }
+        if (way == 's') { Fld& r = *G; *G = r; return G; }
+        if (way == 'h') { Fld* C = new Fld(*G); *G = Fld((U)p2, (U)k2); delete G; return C; }
+        if (way == 't') { Fld* H = new Fld(); *H = Fld((U)p2, (U)k2); *H = *G; delete G; return H; }
+        { GFqDom<T> B(*G); delete G; Fld H(B); Fld* R = new Fld(); *R = H; return R; }       // 'a': copy constructor + operator=
     }
+    S(const std::vector<std::string>& t) : Fp(obtain(t)), F(*Fp) {}
+    ~S() { delete Fp; }
     std::string describe() {
         size_t q = F.tabsize();
         std::vector<ll> a(q), b(q), c(q);
@@ -93,6 +116,7 @@ template <class T> struct S : public Session {
           << " X " << (F.exponent() > 1 ? (ll)F.irreducible() : -1) << " " << (ll)F.generator() << " " << (ll)F.cardinality() << " " << (ll)F.characteristic()
           << " " << (ll)F.exponent() << " " << (ll)F.zero << " " << (ll)F.size() << " " << (ll)F.residu() << " " << (ll)gr
           << " " << ci << " " << ch << " " << (ll)F.minElement() << " " << (ll)F.maxElement();
+        { Elt xi = -9; if (F.exponent() > 1) { F.indeterminate(xi); if (xi != F.indeterminate() || xi != F.sage_generator()) xi = -8; } o << " " << (ll)xi; }
         if (q <= 1024) o << " T " << show(a) << " | " << show(b) << " | " << show(c);
         return o.str();
     }
@@ -122,7 +146,7 @@ template <class T> struct S : public Session {
         else if (v == "m.muladd") r = F.m_muladd(a, b, c);
         else if (v == "m.mulsub") r = F.m_mulsub(a, b, c);
         else if (v == "pred") {   // isZero isOne isMOne isnzero areEqual(a,b) areNEqual(a,b)
-            o << F.isZero(a) << F.isOne(a) << F.isMOne(a) << F.isnzero(a) << F.areEqual(a, b) << F.areNEqual(a, b); return o.str();
+            o << F.isZero(a) << F.isOne(a) << F.isMOne(a) << F.isnzero(a) << F.areEqual(a, b) << F.areNEqual(a, b) << F.isUnit(a); return o.str();
         }
         else if (v == "assign") { F.assign(r, a); }
         else if (v == "reduce") { F.reduce(r, a); Elt s = a; F.reduce(s); if (s != r) r = -98; }
